@@ -14,5 +14,23 @@ let handle (toks : Stdlib.String.t list) : Stdlib.String.t =
   | ["tread"; h] -> (match x_tread (bytes_of_hex h) with Some c -> Printf.sprintf "T %s %d" (hex_of_bytes c) (int_of_n (x_tflags (bytes_of_hex h))) | None -> "E")
   | ["rldec"; b] -> let (t, n) = x_rldec (n_of_int (int_of_string b)) in Printf.sprintf "%d %d" (int_of_n t) (int_of_n n)
   | ["rlenc"; t; n] -> string_of_int (int_of_n (x_rlenc (n_of_int (int_of_string t)) (n_of_int (int_of_string n))))
+  | "builder" :: ops ->
+      let opt f s = if s = "none" then None else Some (f s) in
+      let num s = n_of_int (int_of_string s) in
+      let parse_op s = match Stdlib.String.split_on_char ':' s with
+        | ["tcp"] -> OTcp | ["relay"] -> ORelay
+        | ["udp"; p] -> OUdp (opt num p)
+        | ["mode"; m] -> OMode (mode_of m)
+        | ["verify"; v] -> OVerify (v = "1")
+        | ["admin"; a] -> OAdmin (opt bytes_of_hex a)
+        | ["reqi"; r] -> OReqi (num r)
+        | ["flags"; f] -> OFlags (num f)
+        | ["flag"; i; e] -> OFlag (nat_of_int (int_of_string i), e = "1")
+        | ["prefix"; p] -> OPrefix (opt num p)
+        | ["iname"; a] -> OIname (opt bytes_of_hex a)
+        | ["interval"; d] -> OInterval (opt num d)
+        | _ -> failwith ("op " ^ s) in
+      let (m, code) = x_handshake (Stdlib.List.map parse_op ops) in
+      (match m with Compressed -> "C " | Uncompressed -> "U ") ^ show_code code
   | _ -> "?bad-op"
 let () = main handle
